@@ -377,6 +377,17 @@ class Result:
         return 1 if self.violations else 0
 
 
+def fdec(f):
+    """decode the ordered-float limb encoding <<nan, hi22, mid21, lo21>> of the traces back to a float"""
+    import struct
+    nan, hi, mid, lo = f
+    if nan:
+        return float("nan")
+    v = (hi << 42) | (mid << 21) | lo
+    bits = (v ^ (1 << 63)) if v & (1 << 63) else ((~v) & ((1 << 64) - 1))
+    return struct.unpack("<d", struct.pack("<Q", bits))[0]
+
+
 def read_ndjson(path):
     with open(path) as f:
         return [json.loads(l) for l in f if l.strip()]
